@@ -182,7 +182,10 @@ class Server:
 
     def _ok(self, text=b"done"):
         self.seq += 1
-        return status_line(b"OK", None, text + b" #%d" % self.seq, self._form("oktext"))
+        form = self._form("oktext")
+        # an OK may carry a response code; with a literal text this is the shape 'OK (WARNINGS) {n}'
+        code = b"WARNINGS" if (form == "literal" and self.choose("okcode", 2)) else None
+        return status_line(b"OK", code, text + b" #%d" % self.seq, form)
 
     def _no(self, code, text):
         self.seq += 1
